@@ -54,7 +54,12 @@ pub fn o_skip(input: &[u8], p: &P) -> Out {
 	let r = catch(|| -> Result<u64, (String, String)> {
 		let e = |k: &str, m: String| (k.to_string(), m);
 		let full = read_slp(input, false, p.hash).map_err(|f| e("full-read-failed", f.describe()))?;
-		let sk = read_slp(input, true, p.hash).map_err(|f| e(&format!("skip-read-failed:{}", f.key()), format!("reading a finished replay with skip_frames failed: {}", f.describe())))?;
+		// the skip read goes through the environment-owned reader (p.n[1..] = read schedule)
+		let rd = crate::env::EnvReader::new(input, crate::inc::sched_of(p));
+		let sk = read_slp_from(rd, true, p.hash).map_err(|f| e(&format!("skip-read-failed:{}", f.key()), format!("reading a finished replay with skip_frames failed: {}", f.describe())))?;
+		if sk.hash != full.hash {
+			return Err(e("skip-hash", format!("hash with skip_frames {:?} != hash of the full read {:?}", sk.hash, full.hash)));
+		}
 		same_sem(&full, &sk, "slp")?;
 		empty_frames(&sk, &rg, "slp")?;
 		// the result can be written and re-read
@@ -85,7 +90,7 @@ pub fn o_skip(input: &[u8], p: &P) -> Out {
 
 pub fn run() {
 	let cx = ctx();
-	cx.note("rule", json!("finished well-formed replays (Game End last): all 784 versions with a 2-frame game; layout-class edges x {gecko none / 1 block / 2 blocks / 129 blocks} x {1, 2 Game Ends} x {metadata, none, empty} x histories with items and absences (so the skipped distance varies) x compute_hash {off,on} x compression; compared with the full read: start, end, metadata equal; zero frames with one empty column set per occupied port (every column length 0, version gates right); the result writes, re-reads, and survives .slpp; peppi::read's skip option likewise. Non-trivial = has gecko, doubled end, no metadata, absence or items"));
+	cx.note("rule", json!("finished well-formed replays (Game End last): all 784 versions with a 2-frame game; layout-class edges x {gecko none / 1 block / 2 blocks / 129 blocks} x {1, 2 Game Ends} x {metadata, none, empty} x histories with items and absences (so the skipped distance varies) x compute_hash {off,on} x compression x read schedule of the skip read {full, 1-, 7-, 1000-byte chunks}; compared with the full read: start, end, metadata equal; zero frames with one empty column set per occupied port (every column length 0, version gates right); the result writes, re-reads, and survives .slpp; peppi::read's skip option likewise. Non-trivial = has gecko, doubled end, no metadata, absence or items"));
 	cx.note("exhaustive", json!(true));
 	cx.note("assumptions", json!(["gecko codes and quirks of the skip result are not compared: the statement does not promise them"]));
 	let mut cases: Vec<(AbsReplay, P)> = vec![];
@@ -130,6 +135,19 @@ pub fn run() {
 			}
 		}
 	}
+	// every case also under fragmented reads of the skip path
+	let mut more = vec![];
+	for (a, p) in &cases {
+		for sc in [crate::env::Sched::Chunk(1), crate::env::Sched::Chunk(7), crate::env::Sched::Chunk(1000)] {
+			if !p.hash && !matches!(sc, crate::env::Sched::Chunk(7)) {
+				continue;
+			}
+			let mut p2 = p.clone();
+			crate::inc::set_sched(&mut p2, &sc);
+			more.push((a.clone(), p2));
+		}
+	}
+	cases.extend(more);
 	par_each(cases.into_iter(), |(abs, p), local| {
 		let bytes = Arc::new(record(&abs).doc.assemble());
 		eval_case("skip", o_skip, &bytes, &p, || abs.describe(), local);
